@@ -510,7 +510,7 @@ REPLAYERS["synthetic"] = replay_synthetic
 def replay_nolibxml(here, job, r, f, trace, log):
     """C06 nolibxml scanners: hostile document heads / tails are loaded natively with the built-in parser, each in a child
     process (replay/xmlbuf_replay.c); only used for the document-level job (look_init), the in-place scanners keep the trace"""
-    if "look_init" not in job.entry:
+    if "look_init" not in job.entry and "xml_import" not in job.entry:
         return False, "no native replay for %s: the verifier's trace is in this file" % job.entry, {"function": job.entry}
     exe, err = _build_native(here, "xmlbuf_replay.c", "xmlbuf_replay")
     if not exe:
@@ -523,3 +523,4 @@ def replay_nolibxml(here, job, r, f, trace, log):
 
 
 REPLAYERS["nolibxml"] = replay_nolibxml
+REPLAYERS["xmlimport"] = replay_nolibxml
